@@ -1041,7 +1041,7 @@ inline bool Transport::setReadMode(SessionId sid, ReadMode mode)
     }
 
     // If NOT switching from Sync to Async, update mode directly
-    if (!(oldMode == ReadMode::Sync && mode == ReadMode::Async))
+    if (!(oldMode != ReadMode::Async && mode == ReadMode::Async))
     {
       _impl->readModes[sid] = mode;
 
